@@ -8,7 +8,7 @@ import subprocess
 import sys
 from concurrent.futures import ProcessPoolExecutor
 from pathlib import Path
-from typing import Any, Callable, Dict, List, Optional, Tuple
+from typing import Any, Callable, Dict, List, Optional, Tuple, Sequence
 
 from . import core, eqlgen
 from .core import Report
@@ -160,7 +160,8 @@ def run_python_witness(code: str, timeout: int = 120) -> Any:
 def run_check(prop: str, tier: str, seed: int, replay: Optional[dict], *, profile: str, mode: str, n_quick: int,
               n_thorough: int, targets: List[str], in_fragment: Callable[[dict], bool], modelled_classes: List[str],
               in_scope: Callable[[dict], bool] = lambda c: True,
-              trusted: List[str], assume: List[str], rule: str, level: str = "proof") -> int:
+              trusted: List[str], assume: List[str], rule: str, level: str = "proof",
+              extra_streams: Sequence[Callable[[Any, Any, str], None]] = ()) -> int:
     rep = Report(prop, tier, seed, level)
     rep.trusted = core.COQ_TRUSTED + trusted
     rep.assume = assume
@@ -347,5 +348,8 @@ def run_check(prop: str, tier: str, seed: int, replay: Optional[dict], *, profil
                                "explanation": f"regression: defect repaired in {f.commit} is back"})
     # instances of classes that are not listed at all would have been reported above as violations
     rep.extra["distribution"] = dict(dist, operators=ops, known_finding_instances=kf_counts, cases=len(cases))
+    if replay is None:
+        for k, stream in enumerate(extra_streams):
+            stream(rep, core.Rng(seed * 7919 + 101 + k), tier)
     rep.samples = [{"origin": o, "case": c, "impl": i} for c, o, i in list(zip(cases, origin, impl))[:: max(1, len(cases) // 5)]][:5]
     return rep.finish()
